@@ -917,3 +917,279 @@ Proof.
   destruct (nn_run_ok h _ _ _ (nn_inv_init threads) (nn_agree_init threads) W) as (st & obs & ? & ? & E & I & _).
   destruct (nn_no_leak_inv st I) as (st' & D & _ & L). exists st, obs, st'. auto.
 Qed.
+
+(* ------------------------------------------------------------------ what a live variable reads (its view) *)
+(* a name variable: text, start_offset, tagged_file_id;  a node variable: value and Header.location *)
+Definition nn_vname (st : nn_state) (k : nat) : option (str * N * N) :=
+  match nth_error (nn_names st) k with
+  | Some (NnLive n) =>
+      match nn_text (nn_heap st) n with HpOk s => Some (s, nn_start n, nn_tagged n) | HpPanic _ => None end
+  | _ => None
+  end.
+Definition nn_vnode (st : nn_state) (a : nat) : option (str * option hp_span) :=
+  match nth_error (nn_nodes st) a with Some (NnLive l) => hp_view (nn_heap st) l | _ => None end.
+
+Lemma nn_text_view h n :
+  nn_text h n = match nn_ptr_of n with
+                | NnPStatic s => HpOk s
+                | NnPHeap l => match hp_view h l with Some (s, _) => HpOk s | None => HpPanic HpUseAfterFree end
+                end.
+Proof.
+  unfold nn_text, hp_get, hp_view. destruct (nn_ptr_of n) as [l|s]; [|reflexivity].
+  destruct (hp_find l (hp_cells h)); reflexivity.
+Qed.
+
+Lemma nn_live_lt st l : nn_inv st -> 1 <= hp_strong_of (nn_heap st) l -> l < hp_next (nn_heap st).
+Proof.
+  intros I S. destruct (hp_strong_pos_find _ l S) as (c & E & _). exact (proj1 (hp_find_lt _ l c (ni_wf st I) E)).
+Qed.
+
+(* two live handles to l: the count is at least 2 *)
+Lemma nn_refs_name_node st k n a l :
+  nth_error (nn_names st) k = Some (NnLive n) -> nn_ptr_of n = NnPHeap l ->
+  nth_error (nn_nodes st) a = Some (NnLive l) -> 2 <= nn_refs st l.
+Proof.
+  intros E P E2. unfold nn_refs.
+  pose proof (nn_wsum_ge (nn_wname l) _ _ _ E) as G1. pose proof (nn_wsum_ge (nn_wnode l) _ _ _ E2) as G2.
+  cbn [nn_wname nn_wnode] in *. rewrite P in G1. unfold hp_ind in *. rewrite N.eqb_refl in *. lia.
+Qed.
+Lemma nn_refs_node_node st a b l :
+  a <> b -> nth_error (nn_nodes st) a = Some (NnLive l) -> nth_error (nn_nodes st) b = Some (NnLive l) ->
+  2 <= nn_refs st l.
+Proof.
+  intros Hne E1 E2. unfold nn_refs. pose proof (nn_wsum_ge2 (nn_wnode l) _ _ _ _ _ Hne E1 E2) as G.
+  cbn [nn_wnode] in G. unfold hp_ind in G. rewrite N.eqb_refl in G. lia.
+Qed.
+
+(* Frame: one operation changes what is read through the variables it assigns, moves, drops or mutates, and
+   through no other live variable — of any thread. *)
+Theorem nn_frame_step st ln ld t op ln' ld' st' o :
+  nn_inv st -> nn_agree ln ld st -> nn_ws_step ln ld t op = Some (ln', ld') -> nn_step st t op = HpOk (st', o) ->
+  (forall k n, nth_error (nn_names st) k = Some (NnLive n) -> ~ In k (nn_wr_names t op) ->
+               nth_error (nn_names st') k = Some (NnLive n) /\ nn_vname st' k = nn_vname st k) /\
+  (forall a l, nth_error (nn_nodes st) a = Some (NnLive l) -> ~ In a (nn_wr_nodes t op) ->
+               nth_error (nn_nodes st') a = Some (NnLive l) /\ nn_vnode st' a = nn_vnode st a).
+Proof.
+  intros I A W E.
+  destruct (nn_step_ok st ln ld t op ln' ld' I A W) as (st2 & o2 & E2 & _ & I' & Fn & Fd & Pres).
+  rewrite E in E2. injection E2 as <- <-. split.
+  - intros k n Ek Hk. pose proof (Fn k Hk) as Q. rewrite Ek in Q. split; [exact Q|].
+    unfold nn_vname. rewrite Q, Ek, !nn_text_view. destruct (nn_ptr_of n) as [l|s] eqn:P; [|reflexivity].
+    pose proof (nn_live_name_strong st k n l I Ek P) as S. pose proof (nn_live_name_strong st' k n l I' Q P) as S'.
+    destruct Pres as [_ Pv]. destruct (Pv l (nn_live_lt st l I S)) as [_ ->]; [|exact S'|reflexivity].
+    destruct op; cbn [nn_written]; try solve [intros []];
+      (intros [[Ea U]|G]; [|pose proof (nn_live_lt st l I S); lia]);
+      pose proof (nn_refs_name_node st k n _ l Ek P Ea); rewrite <- (ni_bal st I) in *; lia.
+  - intros a l Ea Ha. pose proof (Fd a Ha) as Q. rewrite Ea in Q. split; [exact Q|].
+    unfold nn_vnode. rewrite Q, Ea.
+    pose proof (nn_live_node_strong st a l I Ea) as S. pose proof (nn_live_node_strong st' a l I' Q) as S'.
+    destruct Pres as [_ Pv]. destruct (Pv l (nn_live_lt st l I S)) as [_ ->]; [|exact S'|reflexivity].
+    destruct op; cbn [nn_written]; try solve [intros []];
+      (intros [[Eb U]|G]; [|pose proof (nn_live_lt st l I S); lia]);
+      cbn [nn_wr_nodes] in Ha; pose proof (nn_not_in1 Ha) as Hne;
+      pose proof (nn_refs_node_node st _ a l Hne Eb Ea); rewrite <- (ni_bal st I) in *; lia.
+Qed.
+
+(* ... and therefore any number of operations that do not assign / move / drop / mutate variable k *)
+Fixpoint nn_untouched_name (k : nat) (h : list (nat * nn_op)) : Prop :=
+  match h with [] => True | (t, op) :: r => ~ In k (nn_wr_names t op) /\ nn_untouched_name k r end.
+Fixpoint nn_untouched_node (a : nat) (h : list (nat * nn_op)) : Prop :=
+  match h with [] => True | (t, op) :: r => ~ In a (nn_wr_nodes t op) /\ nn_untouched_node a r end.
+
+Lemma nn_run_cons st t op r :
+  nn_run st ((t, op) :: r) =
+  match nn_step st t op with
+  | HpOk so => match nn_run (fst so) r with HpOk sr => HpOk (fst sr, snd so :: snd sr) | HpPanic w => HpPanic w end
+  | HpPanic w => HpPanic w
+  end.
+Proof. reflexivity. Qed.
+
+Theorem nn_frame_run h : forall st ln ld st' obs,
+  nn_inv st -> nn_agree ln ld st -> nn_ws ln ld h = true -> nn_run st h = HpOk (st', obs) ->
+  (forall k n, nth_error (nn_names st) k = Some (NnLive n) -> nn_untouched_name k h -> nn_vname st' k = nn_vname st k) /\
+  (forall a l, nth_error (nn_nodes st) a = Some (NnLive l) -> nn_untouched_node a h -> nn_vnode st' a = nn_vnode st a).
+Proof.
+  induction h as [|[t op] r IH]; intros st ln ld st' obs I A W E.
+  - cbn [nn_run] in E. injection E as <- <-. split; reflexivity.
+  - cbn [nn_ws] in W. destruct (nn_ws_step ln ld t op) as [[ln2 ld2]|] eqn:S; [|discriminate].
+    destruct (nn_step_ok st ln ld t op ln2 ld2 I A S) as (st2 & o & E2 & A2 & I2 & _).
+    rewrite nn_run_cons, E2 in E. cbn [fst snd] in E.
+    destruct (nn_run st2 r) as [[st3 obs3]|] eqn:E3; [|discriminate]. cbn [fst snd] in E. injection E as <- <-.
+    destruct (nn_frame_step st ln ld t op ln2 ld2 st2 o I A S E2) as [F1 F2].
+    destruct (IH st2 ln2 ld2 st3 obs3 I2 A2 W E3) as [G1 G2]. split.
+    + intros k n Ek [U1 U2]. destruct (F1 k n Ek U1) as [Ek2 V]. rewrite (G1 k n Ek2 U2). exact V.
+    + intros a l Ea [U1 U2]. destruct (F2 a l Ea U1) as [Ea2 V]. rewrite (G2 a l Ea2 U2). exact V.
+Qed.
+
+(* ------------------------------------------------------------------ observations are functions of the views *)
+Definition nn_loc_of (start tagged : N) (s : str) : option hp_span :=
+  let f := tfi_file_id tagged in if f =? nn_FILE_NONE then None else Some (f, start, start + blen s).
+
+Lemma nn_read_view st t i s start tagged :
+  nn_vname st (nn_nidx t i) = Some (s, start, tagged) ->
+  nn_step st t (NnRead i) = HpOk (st, NnORead s (nn_loc_of start tagged s) (if tfi_tag tagged then None else Some s)).
+Proof.
+  unfold nn_vname. intro V. cbn [nn_step].
+  destruct (nth_error (nn_names st) (nn_nidx t i)) as [[|n|n]|]; try discriminate V.
+  cbn [nn_handle]. destruct (nn_text (nn_heap st) n) as [x|]; [|discriminate V]. injection V as <- <- <-. reflexivity.
+Qed.
+
+Lemma nd_read_view st t a s sp :
+  nn_vnode st (nn_didx t a) = Some (s, sp) -> nn_step st t (NdRead a) = HpOk (st, NdORead s sp).
+Proof.
+  unfold nn_vnode, hp_view. intro V. cbn [nn_step].
+  destruct (nth_error (nn_nodes st) (nn_didx t a)) as [[|l|l]|]; try discriminate V.
+  cbn [nn_handle]. unfold hp_get. destruct (hp_find l (hp_cells (nn_heap st))) as [c|]; [|discriminate V].
+  injection V as <- <-. reflexivity.
+Qed.
+
+(* ==, hash equality and cmp of names look at the texts only (so never at locations) *)
+Lemma nn_cmp_view st t i j a sa ta b sb tb :
+  nn_vname st (nn_nidx t i) = Some (a, sa, ta) -> nn_vname st (nn_nidx t j) = Some (b, sb, tb) ->
+  nn_step st t (NnCmp i j) = HpOk (st, NnOCmp (nn_str_eqb a b) (nn_str_eqb a b) (nn_str_cmp a b)).
+Proof.
+  unfold nn_vname. intros V1 V2. cbn [nn_step].
+  destruct (nth_error (nn_names st) (nn_nidx t i)) as [[|n|n]|]; try discriminate V1.
+  destruct (nth_error (nn_names st) (nn_nidx t j)) as [[|m|m]|]; try discriminate V2.
+  cbn [nn_handle]. destruct (nn_text (nn_heap st) n) as [x|]; [|discriminate V1].
+  destruct (nn_text (nn_heap st) m) as [y|]; [|discriminate V2].
+  injection V1 as <- _ _. injection V2 as <- _ _. reflexivity.
+Qed.
+
+Lemma nn_str_cmp_refl s : nn_str_cmp s s = 1.
+Proof. induction s as [|x r IH]; cbn [nn_str_cmp]; [reflexivity|]. rewrite N.ltb_irrefl. exact IH. Qed.
+
+(* == and hash equality of nodes: the values only, whatever the two Header.locations are *)
+Lemma nd_cmp_view st t a b s1 sp1 s2 sp2 :
+  nn_vnode st (nn_didx t a) = Some (s1, sp1) -> nn_vnode st (nn_didx t b) = Some (s2, sp2) ->
+  exists peq, nn_step st t (NdCmp a b) = HpOk (st, NdOCmp peq (peq || nn_str_eqb s1 s2) (nn_str_eqb s1 s2)).
+Proof.
+  unfold nn_vnode, hp_view. intros V1 V2. cbn [nn_step].
+  destruct (nth_error (nn_nodes st) (nn_didx t a)) as [[|l|l]|]; try discriminate V1.
+  destruct (nth_error (nn_nodes st) (nn_didx t b)) as [[|m|m]|]; try discriminate V2.
+  cbn [nn_handle]. unfold hp_get.
+  destruct (hp_find l (hp_cells (nn_heap st))) as [c|]; [|discriminate V1].
+  destruct (hp_find m (hp_cells (nn_heap st))) as [d|]; [|discriminate V2].
+  injection V1 as <- _. injection V2 as <- _. exists (l =? m). reflexivity.
+Qed.
+
+(* ------------------------------------------------------------------ what creation, with_location and clone establish *)
+Lemma nn_vname_live st k n s :
+  nth_error (nn_names st) k = Some (NnLive n) -> nn_text (nn_heap st) n = HpOk s ->
+  nn_vname st k = Some (s, nn_start n, nn_tagged n).
+Proof. intros E T. unfold nn_vname. rewrite E, T. reflexivity. Qed.
+
+Lemma nn_create_view st ln ld t i ln' ld' op s arc :
+  (op = NnNewHeap i s /\ arc = true) \/ (op = NnFromArc i s /\ arc = true) \/
+  (exists k, op = NnNewStatic i k /\ s = nth k nn_statics [] /\ arc = false) ->
+  nn_inv st -> nn_agree ln ld st -> nn_ws_step ln ld t op = Some (ln', ld') ->
+  exists st', nn_step st t op = HpOk (st', NnONone) /\
+              nn_vname st' (nn_nidx t i) = Some (s, 0, tfi_pack arc nn_FILE_NONE).
+Proof.
+  intros Hop I [-> ->] W.
+  destruct Hop as [[-> ->]|[[-> ->]|(k & -> & -> & ->)]]; cbn [nn_ws_step] in W;
+    (destruct (nn_deadb _ _) eqn:D; [|discriminate]); destruct (nn_deadb_get _ _ D) as (s0 & E0 & Hd);
+    cbn [nn_step]; rewrite (nn_in_names_lt _ _ _ E0).
+  - destruct (hp_alloc (nn_heap st) s None) as [h l] eqn:Al.
+    destruct (hp_alloc_ok _ _ _ _ _ (ni_wf st I) Al) as (_ & _ & _ & _ & Hv & _).
+    eexists. split; [reflexivity|]. apply (nn_vname_live _ _ (nn_fresh_name (NnPHeap l) true)).
+    + cbn [nn_set_name nn_set_heap nn_names]. apply nn_upd_same. exact (nn_nth_lt _ _ _ E0).
+    + rewrite nn_text_view. cbn [nn_fresh_name nn_ptr_of nn_set_name nn_set_heap nn_heap]. rewrite Hv. reflexivity.
+  - destruct (hp_alloc (nn_heap st) s None) as [h l] eqn:Al.
+    destruct (hp_alloc_ok _ _ _ _ _ (ni_wf st I) Al) as (Hl & W1 & S0 & Hs1 & Hv & _).
+    assert (S1 : 1 <= hp_strong_of h l) by (rewrite Hs1, S0; unfold hp_ind; rewrite N.eqb_refl; lia).
+    destruct (hp_incr_ok h l W1 S1) as (h2 & E2 & _ & _ & Hv3 & _). rewrite E2.
+    eexists. split; [reflexivity|]. apply (nn_vname_live _ _ (nn_fresh_name (NnPHeap l) true)).
+    + cbn [nn_set_name nn_names]. apply nn_upd_same. exact (nn_nth_lt _ _ _ E0).
+    + rewrite nn_text_view. cbn [nn_fresh_name nn_ptr_of nn_set_name nn_heap]. rewrite Hv3, Hv. reflexivity.
+  - eexists. split; [reflexivity|]. apply (nn_vname_live _ _ (nn_fresh_name (NnPStatic (nth k nn_statics [])) false)).
+    + cbn [nn_set_name nn_names]. apply nn_upd_same. exact (nn_nth_lt _ _ _ E0).
+    + reflexivity.
+Qed.
+
+Lemma nn_with_loc_view st ln ld t i file start ln' ld' s s0 tg :
+  nn_inv st -> nn_agree ln ld st -> nn_ws_step ln ld t (NnWithLoc i file start) = Some (ln', ld') ->
+  nn_vname st (nn_nidx t i) = Some (s, s0, tg) ->
+  exists st', nn_step st t (NnWithLoc i file start) = HpOk (st', NnONone) /\
+    nn_vname st' (nn_nidx t i) = Some (s, start, tfi_pack (tfi_tag tg) file) /\
+    tfi_file_id (tfi_pack (tfi_tag tg) file) = file /\ tfi_tag (tfi_pack (tfi_tag tg) file) = tfi_tag tg.
+Proof.
+  intros I [-> ->] W V. cbn [nn_ws_step] in W.
+  destruct (nn_livb _ _) eqn:L; [|discriminate]. destruct (nn_file_ok file) eqn:F; [|discriminate].
+  destruct (nn_livb_get _ _ L) as (n & E). unfold nn_vname in V. rewrite E in V.
+  destruct (nn_text (nn_heap st) n) as [x|] eqn:T; [|discriminate V]. injection V as <- <- <-.
+  cbn [nn_step]. rewrite E. cbn [nn_handle]. eexists. split; [reflexivity|]. split.
+  - apply (nn_vname_live _ _ (NnName (nn_ptr_of n) start (tfi_pack (tfi_tag (nn_tagged n)) file))).
+    + cbn [nn_set_name nn_names]. apply nn_upd_same. exact (nn_nth_lt _ _ _ E).
+    + rewrite nn_text_view in *. cbn [nn_ptr_of nn_set_name nn_heap]. exact T.
+  - unfold nn_file_ok in F. assert (0 < file /\ file < fi_TAGN) as [F1 F2] by lia.
+    destruct (pack_roundtrip file (tfi_tag (nn_tagged n)) F1 F2) as (R1 & R2 & _). split; assumption.
+Qed.
+
+Lemma nn_clone_view st ln ld t i j ln' ld' v :
+  nn_inv st -> nn_agree ln ld st -> nn_ws_step ln ld t (NnClone i j) = Some (ln', ld') ->
+  nn_vname st (nn_nidx t i) = Some v ->
+  exists st', nn_step st t (NnClone i j) = HpOk (st', NnONone) /\
+    nn_vname st' (nn_nidx t j) = Some v /\ nn_vname st' (nn_nidx t i) = Some v.
+Proof.
+  intros I A W V. pose proof A as [-> ->]. pose proof W as W0. cbn [nn_ws_step] in W.
+  destruct (nn_livb _ _) eqn:L; [|discriminate]. destruct (nn_deadb _ _) eqn:D; [|discriminate].
+  destruct (nn_livb_get _ _ L) as (n & E). destruct (nn_deadb_get _ _ D) as (s0 & E0 & Hd).
+  assert (Hij : nn_nidx t i <> nn_nidx t j) by (intro Q; rewrite Q in E; rewrite E in E0; injection E0 as <-; discriminate Hd).
+  destruct (nn_step_ok st _ _ t (NnClone i j) ln' ld' I A W0) as (st' & o & Es & _ & I' & Fn & _ & Pres).
+  assert (o = NnONone /\ nth_error (nn_names st') (nn_nidx t j) = Some (NnLive n)) as [-> Ej].
+  { cbn [nn_step] in Es. rewrite E in Es. cbn [nn_handle] in Es. rewrite (nn_in_names_lt _ _ _ E0) in Es.
+    destruct (nn_clone_into st _ n _ s0 I E E0 Hd) as (st2 & C & N2 & _). rewrite C in Es. injection Es as <- <-.
+    split; [reflexivity|]. cbn [nn_set_name nn_names]. rewrite N2. apply nn_upd_same. exact (nn_nth_lt _ _ _ E0). }
+  exists st'. split; [exact Es|].
+  destruct (nn_frame_step st _ _ t (NnClone i j) ln' ld' st' NnONone I A W0 Es) as [F1 _].
+  assert (Hni : ~ In (nn_nidx t i) (nn_wr_names t (NnClone i j))) by (cbn [nn_wr_names]; intros [Q|[]]; congruence).
+  destruct (F1 _ n E Hni) as [Ei Vi]. rewrite V in Vi. split; [|exact Vi].
+  unfold nn_vname in *. rewrite Ej. rewrite Ei in Vi. exact Vi.
+Qed.
+
+(* make_mut then write: the writing handle reads the new value at its old location *)
+Lemma nn_make_mut_view st ln ld t a s ln' ld' old sp :
+  nn_inv st -> nn_agree ln ld st -> nn_ws_step ln ld t (NdMakeMut a s) = Some (ln', ld') ->
+  nn_vnode st (nn_didx t a) = Some (old, sp) ->
+  exists st', nn_step st t (NdMakeMut a s) = HpOk (st', NnONone) /\ nn_vnode st' (nn_didx t a) = Some (s, sp).
+Proof.
+  intros I [-> ->] W V. cbn [nn_ws_step] in W. destruct (nn_livb _ _) eqn:L; [|discriminate].
+  destruct (nn_livb_get _ _ L) as (l & E). pose proof (nn_live_node_strong st _ l I E) as S.
+  destruct (hp_get_ok _ l S) as (c & G & Hc & Vc). unfold nn_vnode in V. rewrite E, Vc in V. injection V as <- <-.
+  cbn [nn_step]. rewrite E. cbn [nn_handle]. rewrite G.
+  destruct (N.eqb_spec (hp_strong c) 1) as [U|NU].
+  - destruct (hp_set_text_ok _ l s (ni_wf st I) S) as (h2 & E2 & _ & _ & (o1 & sp1 & V1 & V2) & _). rewrite E2.
+    eexists. split; [reflexivity|]. unfold nn_vnode. cbn [nn_set_heap nn_nodes nn_heap]. rewrite E, V2.
+    rewrite Vc in V1. injection V1 as _ <-. reflexivity.
+  - destruct (hp_alloc (nn_heap st) (hp_text c) (hp_span_of c)) as [h1 l2] eqn:Al.
+    destruct (hp_alloc_ok _ _ _ _ _ (ni_wf st I) Al) as (Hl & W1 & S0 & Hs1 & Hv1 & Hv2 & Hn1).
+    assert (Hne : l <> l2) by (intro Q; subst l2; rewrite Q in S; lia).
+    assert (S1 : 1 <= hp_strong_of h1 l) by (rewrite Hs1; lia).
+    destruct (hp_decr_ok h1 l W1 S1) as (h2 & E2 & W2 & Hs2 & Hv3 & Hn2). rewrite E2.
+    assert (S2 : 1 <= hp_strong_of h2 l2).
+    { pose proof (Hs2 l2) as Q. pose proof (Hs1 l2) as Q1. unfold hp_ind in *.
+      rewrite N.eqb_refl in Q1. destruct (N.eqb_spec l2 l); [congruence|]. lia. }
+    destruct (hp_set_text_ok h2 l2 s W2 S2) as (h3 & E3 & _ & _ & (o1 & sp1 & V1 & V2) & _). rewrite E3.
+    eexists. split; [reflexivity|]. unfold nn_vnode. cbn [nn_set_node nn_set_heap nn_nodes nn_heap].
+    rewrite nn_upd_same by exact (nn_nth_lt _ _ _ E). rewrite V2.
+    rewrite (Hv3 l2) in V1 by (left; congruence). rewrite Hv1 in V1. injection V1 as _ <-. reflexivity.
+Qed.
+
+(* ------------------------------------------------------------------ interleavings *)
+(* l is an interleaving of the histories hs (each keeps its order) *)
+Inductive nn_shuffle : list (list (nat * nn_op)) -> list (nat * nn_op) -> Prop :=
+| NnShDone hs : Forall (fun h => h = []) hs -> nn_shuffle hs []
+| NnShStep hs1 x r hs2 l : nn_shuffle (hs1 ++ r :: hs2) l -> nn_shuffle (hs1 ++ (x :: r) :: hs2) (x :: l).
+
+Theorem nn_safe_interleavings : forall (threads : nat) (hs : list (list (nat * nn_op))) (l : list (nat * nn_op)),
+  nn_shuffle hs l -> nn_well_scoped threads l = true ->
+  exists st obs st', nn_run (nn_init threads) l = HpOk (st, obs) /\
+    (forall x, hp_strong_of (nn_heap st) x = nn_refs st x) /\
+    nn_drop_all st = HpOk st' /\ hp_live_count (nn_heap st') = 0.
+Proof.
+  intros threads hs l _ W.
+  destruct (nn_run_ok l _ _ _ (nn_inv_init threads) (nn_agree_init threads) W) as (st & obs & ? & ? & E & I & _).
+  destruct (nn_no_leak_inv st I) as (st' & D & _ & L). exists st, obs, st'. split; [exact E|].
+  split; [exact (ni_bal st I)|]. split; assumption.
+Qed.
